@@ -8,8 +8,13 @@ RULE = ("TLC explores BreakerImpl (bucket ring with lazy expiry + weighted-k acc
         "chose. Added: seeded long sequential histories (gaps clustered on bucket edges, the 1 s probe interval "
         "and the 10 s window length; coin loaded to drop whenever possible / never / fair), sustained-failure "
         "runs with the untouched random source (counting clause), concurrent rounds on gated goroutines, parallel "
-        "ungated bursts, and (thorough) histories through the REST / zRPC / sqlx wrappers. Every recorded trace "
-        "is validated by TLC against Breaker.tla; distinct = distinct operation histories executed.")
+        "ungated bursts, and (thorough) histories through the REST / zRPC / sqlx wrappers. Every third random / "
+        "concurrent history goes through the by-name entry points (breaker.Do*(name, ...), GetBreaker(name)). "
+        "By-name rounds: 1-3 names nobody used before, 2-8 goroutines leaving a spin barrier together, the first "
+        "call of goroutine g on name g mod K (first uses race inside the registry), then the identities "
+        "GetBreaker hands out and the window of the registered breaker; validated once per (round, name) "
+        "against BreakerNamesTrace.tla (thorough: also through the zRPC client / server interceptors). Every "
+        "recorded trace is validated by TLC against Breaker.tla; distinct = distinct operation histories executed.")
 
 import os
 
@@ -17,13 +22,14 @@ import vlib
 
 FAM = "breaker"
 PKG = "core/breaker"
-DRV = ["zz_verif_c01_test.go"]
+DRV = ["zz_verif_c01_test.go", "zz_verif_c01_names_test.go"]
 TR = ("BreakerTrace", "BreakerTrace.cfg")
+TRN = ("BreakerNamesTrace", "BreakerNamesTrace.cfg")
 
 
-def _val(run, tr, label, kind):
+def _val(run, tr, label, kind, spec=TR):
     n0 = run.traces
-    run.validate(FAM, TR[0], TR[1], tr, label=label)
+    run.validate(FAM, spec[0], spec[1], tr, label=label)
     n = run.traces - n0
     run.evaluations += n
     for i in range(n):
@@ -43,6 +49,10 @@ def check(run):
         "concurrent driver: successful requests are released only in rounds that start no call (a reject "
         "decided on a window read before a concurrent success is recorded has no single linearisation point)",
         "harness emit order is one total order; callStart before / callEnd after the library call",
+        "by-name rounds: breaker identity = Go interface equality of the values GetBreaker returns, numbered in "
+        "log order; no hook inside GetBreaker, so the racing first uses are produced by a spin barrier (not by a "
+        "TLC-chosen schedule): every interleaving is covered at design level (BreakerReg.tla), the real code by "
+        "hundreds of rounds per run",
     ]
     w = 8 if thorough else 4
     # design level: the algorithm obeys the law; two documented counterexamples
@@ -56,6 +66,21 @@ def check(run):
                     note="design-level: due probe + in-flight successes landing between the window read and the "
                          "lastPass read: a reject without linearisation point (not reproduced on the code; the "
                          "concurrent driver avoids the schedule)")
+    # the by-name registry (breakers.go) under every interleaving of GetBreaker / Do*(name) / NoBreakerFor
+    run.model_check(FAM, "BreakerReg", "BreakerRegMC.cfg", workers=w,
+                    note="registry obeys BreakerNames.tla (one breaker per name) and accounts every by-name call "
+                         "in the registered breaker; 3 goroutines x 2 calls, 2 names")
+    run.model_check(FAM, "BreakerReg", "BreakerRegBug.cfg", workers=w, expect="violation",
+                    note="breaker built outside the write lock and stored without re-check: concurrent first users "
+                         "get different breakers, calls recorded in the losers are orphaned (Accounted)")
+    if thorough:
+        run.model_check(FAM, "BreakerReg", "BreakerRegNop.cfg", workers=w, note="same with NoBreakerFor racing")
+        run.model_check(FAM, "BreakerReg", "BreakerRegMCt.cfg", workers=w, note="4 goroutines x 1 operation, one may NoBreakerFor")
+        run.model_check(FAM, "BreakerReg", "BreakerRegMCt3.cfg", workers=w, note="3 goroutines x 3 calls")
+        run.model_check(FAM, "BreakerReg", "BreakerRegBugLaw.cfg", workers=w, expect="violation",
+                        note="write-locked section without re-check violates GetOK (two breakers for one name)")
+        run.model_check(FAM, "BreakerReg", "BreakerRegBugNop.cfg", workers=w, expect="violation",
+                        note="unconditional store overwrites NoBreakerFor")
     if thorough:
         run.model_check(FAM, "BreakerImpl", "BreakerImplBugIndex.cfg", workers=w, expect="violation",
                         note="updateOffset clearing from the current bucket violates SumsAgree")
@@ -80,6 +105,10 @@ def check(run):
            "VERIF_C01_ROUNDS": 40, "VERIF_C01_G": 4, "VERIF_C01_SRUNS": 32}
     tr = run.go_driver(PKG, DRV, "TestVerifC01(Random|Majority|Conc|Stress)$", env=env)
     _val(run, tr, "random+majority+conc+stress", "history")
+    # by-name entry points, first uses of every name racing in the registry: one validation per (round, name)
+    env = {"VERIF_C01_NROUNDS": 2500, "VERIF_C01_NG": 8} if thorough else {"VERIF_C01_NROUNDS": 250, "VERIF_C01_NG": 8}
+    tr = run.go_driver(PKG, DRV, "TestVerifC01Names$", env=env)
+    _val(run, tr, "names", "by-name", spec=TRN)
     if thorough:
         # the wrappers named in the anchors: same events, same specification
         exp = {os.path.join(vlib.REPO, "core/breaker/zz_verif_c01_export.go"):
@@ -92,6 +121,15 @@ def check(run):
                 ("core/stores/sqlx", "zz_verif_c01_sqlx_test.go", "TestVerifC01SqlConn$", "sqlx-conn")]:
             tr = run.go_driver(pkg, [f], test, env=env, extra_overlay=exp)
             _val(run, tr, label, "wrapper")
+        # the zRPC interceptors reach their breakers by name: concurrent first use through them
+        env = {"VERIF_C01_NROUNDS": 600, "VERIF_C01_NG": 8}
+        for pkg, fs, test, label in [
+                ("zrpc/internal/clientinterceptors", ["zz_verif_c01_client_test.go", "zz_verif_c01_names_client_test.go"],
+                 "TestVerifC01ClientNames$", "zrpc-client-names"),
+                ("zrpc/internal/serverinterceptors", ["zz_verif_c01_server_test.go", "zz_verif_c01_names_server_test.go"],
+                 "TestVerifC01ServerNames$", "zrpc-server-names")]:
+            tr = run.go_driver(pkg, fs, test, env=env, extra_overlay=exp)
+            _val(run, tr, label, "wrapper-by-name", spec=TRN)
 
 
 LEVEL_TEXT = ("Exhaustive TLC model checking that the bucket ring with lazy expiry and the weighted-k accept() "
@@ -100,16 +138,28 @@ LEVEL_TEXT = ("Exhaustive TLC model checking that the bucket ring with lazy expi
               "non-atomic accept() (BreakerRace) for linearisability of rejects; plus conformance: TLC-generated "
               "state-cover histories replayed on the real breaker and long random, sustained-failure, concurrent "
               "and parallel-burst histories validated by TLC against Breaker.tla (thorough: also through the REST, "
-              "zRPC and sqlx wrappers).")
+              "zRPC and sqlx wrappers). By-name entry points: the registry law BreakerNames.tla (one breaker per "
+              "name, distinct names distinct breakers, every by-name call accounted in the breaker of its name), "
+              "model-checked on the implementation-shaped BreakerReg.tla (RWMutex + map, every interleaving of "
+              "3-4 goroutines incl. NoBreakerFor) and validated by TLC on racing first uses recorded from the "
+              "real registry (BreakerNamesTrace.tla).")
 LEVEL_NOTE = ("Trusted: TLC/SANY, the Go toolchain, hook H1 (virtual clock), the harness emit order, math/rand for "
               "the counting clause. The window's lower edge may lie anywhere within one bucket (250 ms) of now-10 s. "
               "Design level bounded to NB=3 buckets / Protection=1; the real constants (40 x 250 ms, 5, 1 s) are "
               "exercised through the real code only. The redis breaker hook and the sqlx query/transaction paths are not driven (sqlx: ExecCtx only).")
-TECHNIQUE = ("TLA+ law (Breaker) + implementation model in lock-step (BreakerImpl) + race model (BreakerRace), TLC "
+TECHNIQUE = ("TLA+ law (Breaker, BreakerNames) + implementation models (BreakerImpl in lock-step, BreakerRace, BreakerReg), TLC "
              "exhaustive checks, TLC-generated replay with a loaded coin, TLC trace validation with inferred "
              "decision/record points")
 DESIGN_REF = "DESIGN.md Part B C01"
 
 
 def replay(run, path):
-    run.replay(FAM, TR[0], TR[1], path)
+    import json
+    with open(path) as fh:
+        first = fh.readline()
+    try:
+        names = "BreakerNamesTrace" in json.loads(first).get("spec", "")
+    except ValueError:
+        names = False
+    spec = TRN if names else TR
+    run.replay(FAM, spec[0], spec[1], path)
